@@ -187,6 +187,8 @@ VALIDATED = set("""
 c15_dispatch_isa_subset c15_scalar_prefix_sum_i32 c15_scalar_prefix_sum_i64 c15_scalar_unpack_bools c15_scalar_build_null_bitmap
 c15_sse_gather_i64 c15_sse_gather_float c15_sse_gather_double c15_sse_memset_small_bounded c15_sse_memcpy_small_bounded
 c15_avx512_pack_bools_bounded c15_avx512_unpack_bools_bounded c15_avx2_pack_bools_bounded c15_sse_byte_stream_split_decode_double
+c15_avx512_gather_i32_bounded c15_avx512_gather_i64_bounded c15_avx512_gather_float_bounded c15_avx512_gather_double_bounded
+c15_avx2_gather_i32_bounded c15_avx2_gather_i64_bounded c15_avx2_gather_float_bounded c15_avx2_gather_double_bounded c15_sse_match_length_bounded_q
 c15_sse_match_copy_bounded_q c15_sse_byte_stream_split_encode_double_bounded c15_sse_match_length_bounded c15_sse_byte_stream_split_encode_float_bounded c15_sse_byte_stream_split_decode_float_bounded
 c15_sse_crc32c_check_value c15_sse_unpack_bools c15_sse_crc32c c15_scalar_match_copy_bounded c15_sse_match_copy_bounded
 c15_scalar_gather_i32 c15_scalar_gather_i64 c15_scalar_gather_float
@@ -198,8 +200,10 @@ c15_sse_fill_def_levels c15_sse_prefix_sum_i32 c15_sse_prefix_sum_i64 c15_sse_ga
 c15_sse_bitunpack8_4bit c15_sse_bitunpack8_8bit c15_sse_pack_bools_01
 c15_sse_find_run_length_i32 c15_sse_count_non_nulls c15_sse_build_null_bitmap
 """.split())
-THOROUGH = {'c15_sse_byte_stream_split_encode_double_bounded': 510, 'c15_sse_byte_stream_split_decode_double': 85, 'c15_sse_match_length_bounded': 270, 'c15_sse_byte_stream_split_decode_float_bounded': 350, 'c15_sse_gather_i64': 100, 'c15_sse_gather_float': 510, 'c15_sse_gather_double': 95, 'c15_sse_crc32c': 100, 'c15_scalar_match_copy_bounded': 105, 'c15_sse_match_copy_bounded': 115, 'c15_scalar_byte_split_encode_double': 220, 'c15_scalar_byte_split_decode_double': 60,
+THOROUGH = {'c15_avx512_gather_i64_bounded': 120, 'c15_avx512_gather_double_bounded': 140, 'c15_avx2_gather_i64_bounded': 135, 'c15_avx2_gather_double_bounded': 135, 'c15_sse_byte_stream_split_encode_double_bounded': 510, 'c15_sse_byte_stream_split_decode_double': 85, 'c15_sse_match_length_bounded': 270, 'c15_sse_byte_stream_split_decode_float_bounded': 350, 'c15_sse_gather_i64': 100, 'c15_sse_gather_float': 510, 'c15_sse_gather_double': 95, 'c15_sse_crc32c': 100, 'c15_scalar_match_copy_bounded': 105, 'c15_sse_match_copy_bounded': 115, 'c15_scalar_byte_split_encode_double': 220, 'c15_scalar_byte_split_decode_double': 60,
             'c15_sse_gather_i32': 300, 'c15_sse_prefix_sum_i32': 140, 'c15_sse_prefix_sum_i64': 130}
+EST = {'c15_avx512_gather_i32_bounded': 75, 'c15_avx512_gather_float_bounded': 90, 'c15_avx2_gather_i32_bounded': 50, 'c15_avx2_gather_float_bounded': 70,
+       'c15_sse_match_length_bounded_q': 60, 'c15_sse_byte_stream_split_encode_float_bounded': 70}
 NOTES = {
     'c15_scalar_crc32c_check_value': 'spec sanity check only (9 table entries exercised); not validated by a breakage',
 }
@@ -208,5 +212,7 @@ for j in JOBS:
         j['wip'] = False
     if j['name'] in THOROUGH:
         j['tier'] = 'thorough'; j['est_s'] = THOROUGH[j['name']]; j['timeout'] = 1500
+    if j['name'] in EST:
+        j['est_s'] = EST[j['name']]
     if j['name'] in NOTES:
         j['note'] = NOTES[j['name']]
